@@ -343,6 +343,59 @@ def rule_v10(repo):
             'and nothing below is converted' % (bad[0].lineno, src(bad[0].ast, 50)), '%s:%d' % (CONV, (bad or rets)[0].lineno))
     return res
 
+def rule_v11(repo):
+    """A conversion that answers t = t says "t is already in normal form".  When that answer hangs on an equality test, the
+    test has to be about the term: `norm == t`, `t.arg == false`.  An equality between two *views* computed from the term -
+    the list of its conjuncts against the sorted list - identifies terms that differ in what the view forgets (the
+    bracketing: (A & B) & C and A & (B & C) have the same conjuncts), so two equal sets of members keep different normal
+    forms.  Reported only when the answer depends on nothing but such view comparisons."""
+    from ..flow import flow_of
+    res = RuleResult('C10.V11', '"already normal" (t = t) is never answered on the strength of a comparison between two views of the term', floor=10)
+    base = repo.cls(CONV, 'Conv')
+    for c in repo.subclasses_of(base):
+        f = c.methods.get('get_proof_term')
+        if f is None or len(f.params()) < 2:
+            continue
+        t = f.params()[1]
+        refls = [r for r in ast.walk(f.node) if isinstance(r, ast.Return) and isinstance(r.value, ast.Call) and
+                 (call_name(r.value) or '').split('.')[-1] in ('refl', 'reflexive') and r.value.args and is_name(r.value.args[0], t)]
+        own = {id(x) for g in f.nested.values() for x in ast.walk(g.node)} if getattr(f, 'nested', None) else set()
+        refls = [r for r in refls if id(r) not in own]
+        if not refls:
+            continue
+        cfg = cfg_of(f.node)
+        flow = flow_of(f.node)
+        bad = []
+        for r in refls:
+            node = cfg.node_for(r)
+            if node is None:
+                continue
+            views, others = [], 0
+            for tn in cfg.test_nodes():
+                need_true = cfg.path_avoiding(node, skip_edges={(tn.id, 'true')}) is None
+                need_false = cfg.path_avoiding(node, skip_edges={(tn.id, 'false')}) is None
+                if need_true == need_false:
+                    continue
+                cp = compare_parts(tn.ast)
+                is_view = False
+                if cp and ((cp[0] is ast.Eq and need_true) or (cp[0] is ast.NotEq and need_false)):
+                    sides = [flow.inline(cp[1]), flow.inline(cp[2])]
+                    # both sides computed from the term by calls, neither the term or a part of it (an attribute path), nor a constant
+                    is_view = all(isinstance(x, ast.Call) and t in {n_.id for n_ in ast.walk(x) if isinstance(n_, ast.Name)} and path_of(x) is None
+                                  for x in sides)
+                if is_view:
+                    views.append(tn)
+                else:
+                    others += 1
+            if views and not others:
+                bad.append((r, views[0]))
+        res.add('%s :: get_proof_term :: already-normal-answer' % c.key, not bad,
+                '%d reflexive answer(s), none resting on a comparison of views alone' % len(refls) if not bad else
+                'line %d answers %s = %s because `%s` - a comparison between two lists computed from the term, which forgets how the term is '
+                'bracketed: (A & B) & C is left as it is while A & (B & C) and every permutation become A & B & C' % (
+                    bad[0][0].lineno, t, t, src(bad[0][1].ast, 60)), f.loc)
+    return res
+
 
 def rules(repo):
-    return [rule_v1(repo), rule_v2(repo), rule_v3(repo), rule_v4(repo), rule_v5(repo), rule_v6(repo), rule_v7(repo), rule_v8(repo), rule_v9(repo), rule_v10(repo)]
+    return [rule_v1(repo), rule_v2(repo), rule_v3(repo), rule_v4(repo), rule_v5(repo), rule_v6(repo), rule_v7(repo), rule_v8(repo), rule_v9(repo), rule_v10(repo), rule_v11(repo)]
